@@ -15,7 +15,6 @@ text / documentation in `_reference` and `numeric_reference` below.
 """
 import contextlib
 import fractions
-import itertools
 import math
 
 import numpy as np
@@ -552,9 +551,7 @@ def unit(cfg):
     A = [xi[0].t > 0] + [xi[i].t < xi[i + 1].t for i in range(nxi - 1)]
     A += [l.t > 0 for l in (lam if mode == "tof" else lam[:1])]
     A += [theta.t > 0, theta.t <= symx.rat(math.pi / 2)]
-    # the instantiated sin/asin facts are needed while exploring only through
-    # np.max(wavelength); none of them constrains a fork, so they are added at
-    # the obligations instead.
+    # (the instantiated sin/asin facts constrain no fork; they are added at the obligations)
 
     def vectors(nq):
         I1 = symx.oarray(symx.reals("I1_", nq))
@@ -610,6 +607,11 @@ def unit(cfg):
                   "path_condition": [str(x)[:160] for x in p.pc][:6],
                   "value[0]": str(outs[0][0])[:600]})
         u.reachable(name + "/path%d" % pi, H)
+        # the acceptance limit can fall inside the grid on this path (mask not vacuous)
+        two_pi = symx.rat(TWO_PI)
+        u.reachable(name + "/path%d/limit-inside-grid" % pi,
+                    H + _trans_axioms(H + [S]) + [q[0] * lamt[0] <= two_pi * S,
+                                                  q[-1] * lamt[0] > two_pi * S])
         hq = handler("grid", nq)
         # 1. q_calc positive, strictly increasing
         prove_refined(u, "q_calc-positive-increasing",
@@ -646,7 +648,6 @@ def unit(cfg):
             u.note("path %d: coefficient and linearity obligations skipped (the value is not the "
                    "linear form they are stated on)" % pi)
             continue
-        one = [z3.RealVal(1)] * nq
         nice = [z3.And(t >= 10, t <= 100000) for t in xit] + \
                [z3.And(t >= 1, t <= 20) for t in lamt] + [theta.t >= symx.rat(0.005)]
         block = _defect_masks(q, xit, lamt, S, theta.t)
@@ -688,6 +689,12 @@ def unit(cfg):
             for k in range(nq):
                 phi = coeff_ok(chosen, j, k)
                 at = H + [phi]
+                if j == 0 and k == 1 and pi == 0:
+                    sv = z3.Solver()
+                    sv.add(*(H + _trans_axioms(at) + [z3.Not(phi)]))
+                    txt = sv.to_smt2()
+                    u.sample({"obligation": "coefficient[k=1,j=0] on path 0", "smt2_bytes": len(txt),
+                              "smt2_head": txt[:1500]})
                 ok = prove_refined(u, "coefficient[k=%d,j=%d]=(m*J0(q_k*xi_j)-1)*q_k*dq_k/2pi" % (k, j),
                                    phi, H, handler("formula", 0, block),
                                    _trans_axioms(at) + _point_lemmas(at, _SEED), at, robust=nice,
@@ -972,7 +979,9 @@ def configs(chk):
     for n in (2, 3, 4):
         for mode in ("mono", "tof"):
             for sp in (2.0, 1.5, 3.0):
-                out.append((n, mode, sp, 12 if mode == "mono" or n < 4 else 8))
+                nm = 12 if mode == "mono" or n < 4 else 8
+                if sp ** nm > 10 * n * 1.5:      # otherwise no grid fits under the bound
+                    out.append((n, mode, sp, nm))
     return out
 
 
@@ -992,15 +1001,19 @@ def run(chk):
         "b value(I2).  J0, exp, log, sin, asin are uninterpreted functions with instantiated true facts; "
         "a model of sin/asin that does not reproduce on the real code is refined by monotonicity lemmas "
         "through the real function values (counterexample-guided) before a verdict is given.")
-    nm = 8 if chk.quick else 12
+    cfgs = configs(chk)
     chk.bounds = {
-        "spin-echo points": "1..3" if chk.quick else "1..4",
-        "q grid": "2..%d points: log spacing raised from 1.0003 to {2, 1.5} (one point: {4, 3%s}) by "
+        "spin-echo points": "1..%d" % max(c[0] for c in cfgs),
+        "wavelength": "one symbol for all points (mono) or one symbol per point (tof)",
+        "q grid": "2..%d points (tof with >= %d points: <= %d): log spacing raised from 1.0003 to %s by "
                   "replacing the default of SesansTransform.__init__(log_spacing=...); inputs whose grid "
-                  "would be longer are outside the claim" % (nm, "" if chk.quick else ", 2"),
+                  "would be longer are outside the claim" % (
+                      max(c[3] for c in cfgs), max(c[0] for c in cfgs), min(c[3] for c in cfgs),
+                      sorted({c[2] for c in cfgs})),
+        "configurations": [_name(c) for c in cfgs],
         "units": "SE length in A, wavelength in A, acceptance in radians (other units need sasdata's "
                  "Converter, which is not installed)",
-        "solver timeout per query": "120 s; fork feasibility 30 s",
+        "solver timeout per query": "120 s (30 s for the UF-abstracted nlsat stage); fork feasibility 30 s",
         "sin/asin refinement rounds per obligation": 6,
     }
     chk.outside = [
@@ -1036,7 +1049,6 @@ def run(chk):
     ]
     chk.trusted.append("z3 tactic qfnra-nlsat on the UF-abstracted queries (an unsat there implies unsat of the query)")
     chk.trusted.append("scipy.special.j0 / math.sin / math.asin in the numeric replay reference")
-    cfgs = configs(chk)
     if getattr(chk, "only", None):
         cfgs = [c for c in cfgs if chk.only in _name(c)]
     chk.add(pmap(unit, cfgs))
